@@ -247,6 +247,42 @@ def assumptions(module, theorems):
     return res
 
 
+def extra_props_stage(res, props_file, pinned):
+    """A second statement file whose theorems a check also rests on (e.g. Props/Joint.v: the
+    component theorems restated over joint histories).  Built, audited and counted like the
+    property's own file; its theorems are appended to the coverage."""
+    ok, out = build_coq(["theories/Props/%s.vo" % props_file[:-2]])
+    cov = res.coverage
+    thms = theorem_names(props_file)
+    cov["obligations"] = cov.get("obligations", 0) + len(thms)
+    if not ok:
+        res.violation("Coq build of Props/%s failed: a proof obligation no longer checks" % props_file,
+                      {"theorem_file": "coq/theories/Props/" + props_file, "log": out[-3000:]}, has_input=False)
+        return False
+    missing = [t for t in pinned if t not in thms]
+    if missing:
+        res.violation("pinned theorems missing", {"missing": missing, "file": props_file}, has_input=False)
+        return False
+    ass = assumptions("Props." + props_file[:-2], thms)
+    foreign = sorted({a for v in ass.values() for a in v if a not in ALLOWED_AXIOMS})
+    if foreign:
+        res.violation("theorems depend on axioms outside the allowlist", {"axioms": foreign, "file": props_file}, has_input=False)
+        return False
+    cov["theorems"] = cov.get("theorems", []) + thms
+    cov["discharged"] = cov.get("discharged", 0) + len(thms)
+    if res.tier == "thorough":
+        with Lock("coq"):
+            rc, out = sh(["coqchk", "-o", "-silent", "-Q", "theories", "VLS", "VLS.Props." + props_file[:-2]],
+                         cwd=COQ, timeout=3000)
+        if rc != 0 or "Axioms: <none>" not in out.replace("* Axioms:", "Axioms:"):
+            summary = out[out.find("CONTEXT SUMMARY"):] if "CONTEXT SUMMARY" in out else out[-1500:]
+            res.violation("coqchk does not confirm Props/%s (independent checker): %s" % (props_file, summary[-800:]),
+                          {"theorem_file": "coq/theories/Props/" + props_file}, has_input=False)
+            return False
+        cov.setdefault("coqchk_extra", []).append("coqchk -o -silent VLS.Props." + props_file[:-2] + ": rc=0, Axioms: <none>")
+    return True
+
+
 def theorem_names(props_file):
     txt = open(os.path.join(COQ, "theories", "Props", props_file)).read()
     return re.findall(r"^(?:Theorem|Example|Corollary|Lemma)\s+([\w']+)", txt, flags=re.M)
